@@ -29,6 +29,16 @@ def run_case(data):
     r.step('role', 'client' if client else 'server')
     nbatches = ch.int(1, 6)
     for _ in range(nbatches):
+        if ch.chance(16):
+            # something that is not an 8-byte string at all, though bytes() of it would have eight bytes
+            odd = ch.pick([8, list(range(8)), 'abcdefgh', range(8)])
+            o = s.call('ping', odd)
+            r.step('ping()', repr(odd), o.brief())
+            if o.ok or not isinstance(o.exc, (ValueError, TypeError)):
+                r.violate('C26:ping-call-non-bytes-accepted:%s' % type(odd).__name__, o.brief())
+            if o.out:
+                r.violate('C26:ping-call-refused-but-emitted', o.out.hex())
+            continue
         if ch.chance(64):
             # local ping() call
             n = ch.pick([8, 0, 7, 9, 16, 1])
@@ -95,8 +105,15 @@ def run_case(data):
             chunks = [buf]
         got_events = []
         got_frames = []
+        reuse = ch.pick([None, None, None, 'memoryview', 'bytearray']) if len(chunks) > 1 else None
         for c in chunks:
-            o = s.feed(c)
+            if reuse:
+                # chunks handed over in a buffer that the caller recycles right after the call
+                ba = bytearray(c)
+                o = s.feed(memoryview(ba) if reuse == 'memoryview' else ba)
+                ba[:] = b'\xee' * len(ba)
+            else:
+                o = s.feed(c)
             if not o.ok:
                 r.violate('C26:valid-batch-rejected:%s' % o.exc_name, repr(o.exc))
                 r.step('recv', kinds, [len(c) for c in chunks], o.brief())
